@@ -65,6 +65,7 @@ def encPathOutcome : PathOutcome Nat → Json
 
 def encKind : ErrKind → List (String × Json)
   | .invalidUrl => [("kind", "invalidUrl")]
+  | .transport msg => [("kind", "transport"), ("msg", msg)]
   | .httpStatus s => [("kind", "httpStatus"), ("status", s)]
   | .notJson => [("kind", "notJson")]
   | .badFormat => [("kind", "badFormat")]
@@ -74,7 +75,7 @@ def encKind : ErrKind → List (String × Json)
 def encUrlOutcome (p : PostResult) : Json :=
   match introspect p with
   | .introspectionError k => Json.mkObj ((("o", Json.str "introspectionError") : String × Json) :: encKind k)
-  | .other exc => Json.mkObj [("o", "other"), ("exc", exc)]
+  | .escaped e => Json.mkObj [("o", "other"), ("exc", match e.mro with | c :: _ => c | [] => ""), ("msg", e.msg)]
   | .data d =>
     match Spec.BuildClientSchema.top d with
     | .typeError => Json.mkObj [("o", "other"), ("exc", "TypeError")]
@@ -167,7 +168,11 @@ def handle (j : Json) : Except String Json := do
     pure (encPathOutcome (schemaDocFromPath src))
   | "introspect" =>
     match j.getObjVal? "raised" with
-    | .ok r => pure (encUrlOutcome (.raised (← r.getStr?)))
+    | .ok r =>
+      let mro ← (← getList r "mro").mapM (·.getStr?)
+      let e : Exc := ⟨mro, ← fieldStr r "msg"⟩
+      pure ((encUrlOutcome (.raised e)).setObjVal! "listed" (listedFailureExc e)
+        |>.setObjVal! "trigRequestExcUntyped" (trigRequestExcUntyped (.raised e)))
     | .error _ =>
       let status ← fieldNat j "status"
       let body ← match j.getObjVal? "body" with
